@@ -30,7 +30,8 @@ WANTED = [("sbdfstring.c", "sbdf_convert_utf8_to_iso88591"), ("sbdfstring.c", "s
           ("fileheader.c", "sbdf_fh_write_cur"), ("fileheader.c", "sbdf_fh_read"),
           ("valuetype.c", "sbdf_vt_write"), ("valuetype.c", "sbdf_vt_read"),
           # 32-bit integers in the default (little-endian) configuration: four bytes, then sbdf_swap (a no-op there)
-          ("internals.c", "sbdf_read_int32"), ("internals.c", "sbdf_write_int32")]
+          ("internals.c", "sbdf_read_int32"), ("internals.c", "sbdf_write_int32"),
+          ("internals.c", "sbdf_skip_string"), ("internals.c", "sbdf_calculate_array_capacity")]
 CALLABLE = set(w[1] for w in WANTED if len(w) == 2) | {"sbdf_swap"}
 
 
@@ -202,6 +203,16 @@ def expr(n, scope):
             if cname == "fread":
                 f.w.add(v); return '(EReadByte "%s")' % v, f
             f.r.add(v); return '(EWriteByte (EVar "%s"))' % v, f
+        if cname == "fseek" and len(n["inner"]) == 4:
+            a0, a1, a2 = [strip_casts(x) for x in n["inner"][1:]]
+            whence = a2.get("kind") == "IntegerLiteral" and int(a2["value"]) == 1          # SEEK_CUR
+            fparam = a0.get("kind") == "DeclRefExpr" and a0.get("referencedDecl", {}).get("kind") == "ParmVarDecl" and "FILE" in qt(a0)
+            if whence and fparam and qt(strip_casts(n["inner"][2])) == "int":
+                e, f = expr(n["inner"][2], scope)
+                if isinstance(e, str) and e.startswith("(ECast"): pass
+                f.io = True; f.stream = True
+                return "(ESeekCur %s)" % e, f
+            raise Untranslatable("fseek other than (f, int, SEEK_CUR)")
         raise Untranslatable("call to " + str(cname))
     if k == "ImplicitCastExpr" or k == "CStyleCastExpr":
         ck = n.get("castKind")
@@ -225,6 +236,8 @@ def expr(n, scope):
             raise Untranslatable("rvalue of " + str(s.get("kind")))
         if ck == "IntegralCast":
             t = qt(n)
+            if t == "long" and qt(unparen(sub)) == "int":
+                return expr(sub, scope)            # int -> long (the offset of fseek): value preserving
             if t in SIZE_T:
                 # only for comparing the count returned by fread / fwrite with a literal
                 u = unparen(sub)
